@@ -174,6 +174,10 @@ def run(ctx: common.Ctx):
             jobs.append((fn, "method", "bool" if fn in ("all", "any") else rng.choice(["int64", "float64"]), shape, axis,
                          rng.random() < 0.5, {}, ctx.seed * 31 + k))
     res = tables.pmap(worker, jobs, chunk=16)
+    from .. import reducetie
+    seen = set()
+    combos = [c for c in ((tuple(j[3]), j[4], j[5]) for j in jobs if j[0] == "sum" and j[1] == "function") if not (c in seen or seen.add(c))]
+    reducetie.run(ctx, combos)
     # Lean model of the result shape
     lines = []
     for (fn, form, dtype, shape, axis, keepdims, extra, seed) in jobs:
